@@ -10,6 +10,20 @@ def _fast_pbkdf2(src):
     return new
 
 
+def _pick_victims(src):
+    """harness-only: the two capacity-eviction loops delete `the first key of a Go map iteration` (an
+    arbitrary entry). Route that arbitrary choice through a hook so the harness knows the victim and can
+    hand it to the model as the eviction oracle. Raises if the loops changed shape (tie broken)."""
+    n_total = 0
+    for cache, fn in (("permCache", "verifPickPerm"), ("tokenCache", "verifPickTok")):
+        pat = r"(for k := range rm\.%s \{\n)(\s*)(delete\(rm\.%s, k\)\n\s*break)" % (cache, cache)
+        src, n = re.subn(pat, lambda m: m.group(1) + m.group(2) + "k = %s(rm.%s, k)\n" % (fn, cache) + m.group(2) + m.group(3), src)
+        if n != 1:
+            raise Exception("eviction loop `for k := range rm.%s { delete(rm.%s, k); break }` not found exactly once" % (cache, cache))
+        n_total += n
+    return src
+
+
 SPEC = dict(
     id="C20",
     level_text=("Lean 4: C20_full proves, for ALL op histories (all 18 mutating entry points, clock advances, checks) in both "
@@ -33,8 +47,8 @@ SPEC = dict(
         "internal/auth/cluster_rbac_apply.go",
         "internal/auth/cluster_apply.go",
     ],
-    hooks={"internal/license": "go/hooks/license_c20"},
-    rewrite=[("internal/auth/auth.go", _fast_pbkdf2)],
+    hooks={"internal/license": "go/hooks/license_c20", "internal/auth": "go/hooks/auth_c20"},
+    rewrite=[("internal/auth/auth.go", _fast_pbkdf2), ("internal/auth/rbac_manager.go", _pick_victims)],
     harnesses=[dict(name="c20", timeout=dict(quick=600, thorough=3000))],
     trusted_base=[
         "SQLite semantics (ON DELETE CASCADE with foreign_keys=ON, UNIQUE, AUTOINCREMENT never reusing ids) are modelled (cascade = keep children whose parent remains) and validated by the correspondence, not proved",
